@@ -22,8 +22,8 @@ CLAIMS = {
             "Sequence numbers of one history lie in one 2^24 window (stated by the property); single goroutine.",
             "DESIGN.md section 5, C02"),
     "C10": ("model-based property testing (rapid): buffered set reconstructed from pushes and deliveries, invariant checked after every call",
-            "Exploration: with the timeout far in the future, generated histories over-fill the buffer, complete head and non-head events and interleave Maintain; after every push the reconstructed buffer must hold <= maxInFlight events with an incomplete oldest event, and every delivery outside Close must have a cause (complete or over-full).",
-            "Timeout 1h excludes the expiry cause as the property's quantifier says; terminating record types as in DESIGN.md 4.1.",
+            "Exploration: with the timeout far in the future, generated histories over-fill the buffer, complete head and non-head events and interleave Maintain; after every push the reconstructed buffer must hold <= maxInFlight events with an incomplete oldest event, and every delivery outside Close must have a cause (complete or over-full). A second stage repeats the check with finite timeouts and real idle periods: a delivery whose event is neither complete nor evicted by overflow must not happen while the timeout has definitely not elapsed (harness clock read around every call).",
+            "Timeout >= 1h excludes the expiry cause as the property's quantifier says; in the timed stage only 'definitely not elapsed' is asserted; terminating record types as in DESIGN.md 4.1.",
             "DESIGN.md section 5, C10"),
     "C19": ("property testing (rapid) with real time: generated histories with sleeps; three-valued interval oracle for expiry plus Close / after-Close / constructor rules",
             "Exploration: histories mix pushes of never-completing events, real sleeps shorter and longer than the timeout, Maintain and Close. From harness clock readings around each call the oracle derives whether an event is definitely expired / definitely live / undetermined at each later call and asserts only the definite cases (must be delivered in this very call as soon as it is the oldest / must not be delivered). Close must flush everything once in order with loss accounting; later Maintain/Close must fail silently; nil Stream must be refused.",
